@@ -460,6 +460,8 @@ def matches_known(entry, prop, failure):
     for k, v in m.get("params", {}).items():
         if to_jsonable(failure["params"].get(k)) != v:
             return False
+    if m.get("what_contains") and m["what_contains"] not in failure.get("what", ""):
+        return False            # a DIFFERENT failure at the same call site is still a violation
     return True
 
 
@@ -568,7 +570,15 @@ def main(argv):
     def size_of(f):
         return len(json.dumps(to_jsonable(f["params"])))
     seen_classes = {}
-    for f in sorted(oracle_fail, key=size_of):
+    unlisted = []
+    for f in oracle_fail:
+        # listed findings first (every failing case is matched on its own: two call sites may share a message class)
+        ke = [e for e in known if matches_known(e, prop, f)]
+        if ke:
+            known_hits[ke[0]["what"]] = known_hits.get(ke[0]["what"], 0) + 1
+        else:
+            unlisted.append(f)
+    for f in sorted(unlisted, key=size_of):
         cls = (f["kind"], re.sub(r"[-+]?\d+\.?\d*(e[-+]?\d+)?", "#", f["what"])[:80])
         if cls in seen_classes:
             continue
@@ -577,10 +587,6 @@ def main(argv):
     for cls, f in seen_classes.items():
         if idx >= 3:
             break
-        ke = [e for e in known if matches_known(e, prop, f)]
-        if ke:
-            known_hits[ke[0]["what"]] = known_hits.get(ke[0]["what"], 0) + 1
-            continue
         path = write_replay(f, idx)
         idx += 1
         violations.append((path, f["what"], ""))
